@@ -130,6 +130,104 @@ theorem readN_eq_read (r : Rd) (n : Nat) :
 example : Rd.outs ⟨[1,2,3,4,5], 0⟩ [.u16, .read (-1), .peek 2, .read 9, .u8, .len, .readCount, .read 2, .u8] =
     [.num 258, .fail, .bytes [3,4], .fail, .num 3, .num 2, .num 3, .bytes [4,5], .fail] := by decide
 
+/-! ## Algebraic laws: reads compose, and wide integers are made of narrow ones -/
+
+theorem beN_foldl_acc (b : Bytes) (acc : Nat) :
+    b.foldl (fun a x => a * 256 + x.toNat) acc = acc * 256 ^ b.length + beN b := by
+  induction b generalizing acc with
+  | nil => simp [beN]
+  | cons x xs ih =>
+    simp only [List.foldl_cons, List.length_cons, beN]
+    rw [ih, ih (0 * 256 + x.toNat)]
+    simp only [Nat.zero_mul, Nat.zero_add, Nat.pow_succ]
+    rw [Nat.add_mul, Nat.add_assoc]
+    congr 1
+    rw [Nat.mul_assoc, Nat.mul_comm 256]
+
+theorem beN_append (a b : Bytes) : beN (a ++ b) = beN a * 256 ^ b.length + beN b := by
+  unfold beN; rw [List.foldl_append]; exact beN_foldl_acc b _
+
+/-- a fixed-width integer read of `k` octets, as in `Rd.step` -/
+def fixedRead (r : Rd) (k : Nat) : Rd × ROut :=
+  match r.take? k with | some b => (r.adv k, .num (beN b)) | none => (r, .fail)
+
+theorem take?_nat (r : Rd) (k : Nat) :
+    r.take? (k : Int) = if r.rem.length < k then none else some (r.rem.take k) := by
+  unfold Rd.take?
+  have : ¬ ((k : Int) < 0) := by omega
+  simp only [this, if_false, Int.toNat_natCast]
+
+/-- **C19 (integers in big-endian order, compositional form)**: an integer read of `j + k` octets is an integer read
+of `j` octets followed by one of `k` octets, the first the more significant — and it fails, leaving the reader where it
+was, exactly when either of the two would fail.  For every reader state. -/
+theorem fixed_split (r : Rd) (j k : Nat) :
+    fixedRead r (j + k) =
+      match fixedRead r j with
+      | (r1, .num a) =>
+        match fixedRead r1 k with
+        | (r2, .num b) => (r2, .num (a * 256 ^ k + b))
+        | _ => (r, .fail)
+      | _ => (r, .fail) := by
+  unfold fixedRead
+  rw [take?_nat, take?_nat]
+  by_cases h1 : r.rem.length < j
+  · have : r.rem.length < j + k := by omega
+    simp [h1, this]
+  · simp only [h1, if_false]
+    rw [take?_nat]
+    by_cases h2 : r.rem.length < j + k
+    · have : (r.adv j).rem.length < k := by simp [Rd.adv]; omega
+      simp [h2, this]
+    · have : ¬ (r.adv j).rem.length < k := by simp [Rd.adv]; omega
+      simp only [h2, this, if_false]
+      have hlen : ((r.rem.drop j).take k).length = k := by simp; omega
+      have : r.rem.take (j + k) = r.rem.take j ++ (r.rem.drop j).take k := by
+        rw [List.take_add]
+      rw [this, beN_append, hlen]
+      simp [Rd.adv, List.drop_drop]; omega
+
+/-- **C19 (reads compose)**: `Read(m+n)` is `Read(m)` followed by `Read(n)` — the same octets, the same final position
+and count — and fails without moving exactly when either of the two would fail (a decoder that reads a record field by
+field consumes what one read of the record's length consumes).  For every reader state and all `m`, `n`. -/
+theorem read_split (r : Rd) (m n : Nat) :
+    r.step (.read ((m + n : Nat) : Int)) =
+      match r.step (.read m) with
+      | (r1, .bytes x1) =>
+        match r1.step (.read n) with
+        | (r2, .bytes x2) => (r2, .bytes (x1 ++ x2))
+        | _ => (r, .fail)
+      | _ => (r, .fail) := by
+  simp only [Rd.step, take?_nat, Int.toNat_natCast]
+  by_cases h1 : r.rem.length < m
+  · have : r.rem.length < m + n := by omega
+    simp [h1, this]
+  · simp only [h1, if_false]
+    by_cases h2 : r.rem.length < m + n
+    · have : (r.adv m).rem.length < n := by simp [Rd.adv]; omega
+      simp [h2, this]
+    · have : ¬ (r.adv m).rem.length < n := by simp [Rd.adv]; omega
+      simp only [h2, this, if_false]
+      simp [Rd.adv, List.drop_drop, List.take_add]; omega
+
+/-- `Uint16` is two `Uint8`s, `Uint32` two `Uint16`s, `Uint64` two `Uint32`s, most significant first; a short buffer
+fails the wide read and leaves the reader unmoved even when the first half could be read -/
+theorem u16_is_two_u8 (r : Rd) :
+    r.step .u16 = match r.step .u8 with
+      | (r1, .num a) => (match r1.step .u8 with | (r2, .num b) => (r2, .num (a * 256 + b)) | _ => (r, .fail))
+      | _ => (r, .fail) := fixed_split r 1 1
+theorem u32_is_two_u16 (r : Rd) :
+    r.step .u32 = match r.step .u16 with
+      | (r1, .num a) => (match r1.step .u16 with | (r2, .num b) => (r2, .num (a * 65536 + b)) | _ => (r, .fail))
+      | _ => (r, .fail) := fixed_split r 2 2
+theorem u64_is_two_u32 (r : Rd) :
+    r.step .u64 = match r.step .u32 with
+      | (r1, .num a) => (match r1.step .u32 with | (r2, .num b) => (r2, .num (a * 4294967296 + b)) | _ => (r, .fail))
+      | _ => (r, .fail) := fixed_split r 4 4
+
+/-- non-vacuity: the composition laws on a buffer where the second half is missing, and on one where it is there -/
+example : (Rd.step ⟨[1,2,3], 0⟩ .u32).2 = .fail ∧ (Rd.step ⟨[1,2,3], 0⟩ .u16).2 = .num 258 ∧
+    (Rd.step ⟨[1,2,3,4], 7⟩ .u32) = (⟨[], 11⟩, .num 16909060) ∧ 16909060 = 258 * 65536 + 772 := by decide
+
 /-! ## Tie (translation): the methods of `reader/reader.go`, translated on every run, are the steps of the model
 
 `Gen.ReaderIR` is regenerated from the Go AST by `factgen` (`reader_ir.go`); `ReaderIR.Body.run` gives the translated
